@@ -198,7 +198,7 @@ func (r *Runner) body(id string, l *layout) func([]reflect.Value) []reflect.Valu
 		r.log = append(r.log, Event{T: "exec", F: id, N: n, O: out, Args: l.decode(args)})
 		r.advance(time.Duration(l.fn.Dur) * unit)
 		if out == "panic" {
-			panic(PanicVal{id, n})
+			panic(panicValue(id, n))
 		}
 		res := l.make(id, n, false)
 		if out == "err" {
@@ -225,7 +225,7 @@ func (r *Runner) callback(id string) dig.Callback {
 		case ci.Error == nil:
 			e = "nil"
 		case errors.As(ci.Error, &pe):
-			if pv, ok := pe.Panic.(PanicVal); ok && pv == (PanicVal{id, n}) {
+			if pv, ok := asPanicVal(pe.Panic); ok && pv == (PanicVal{id, n}) && pe.Panic == panicValue(id, n) {
 				e = "panic"
 			}
 		case errors.As(dig.RootCause(ci.Error), &xe):
@@ -502,7 +502,7 @@ func (r *Runner) classify(e *Entry, err error, invokedSentinel func() *ExecErr) 
 	case errors.As(err, &pe):
 		facts = append(facts, "panicerr")
 		e.V = "panic"
-		if pv, ok := pe.Panic.(PanicVal); ok {
+		if pv, ok := asPanicVal(pe.Panic); ok && pe.Panic == panicValue(pv.F, pv.N) {
 			e.RF, e.RN = pv.F, pv.N
 		} else {
 			e.V = "foreignpanic"
@@ -555,7 +555,7 @@ func (r *Runner) classify(e *Entry, err error, invokedSentinel func() *ExecErr) 
 func guard(f func()) (injected *PanicVal, crash string) {
 	defer func() {
 		if p := recover(); p != nil {
-			if pv, ok := p.(PanicVal); ok {
+			if pv, ok := asPanicVal(p); ok && p == panicValue(pv.F, pv.N) {
 				injected = &pv
 				return
 			}
